@@ -7,6 +7,7 @@ import (
 	"fmt"
 	"os"
 	"path/filepath"
+	"runtime"
 	"strings"
 	"sync"
 	"sync/atomic"
@@ -204,9 +205,34 @@ func (a *autoCache) Quiesce() bool {
 
 func (a *autoCache) Close() {
 	if a.C != nil {
-		a.C.Configure(cdi.WithAutoRefresh(false))
+		releaseCache(a.C)
 	}
 	a.unhook()
+}
+
+// deadlocked is set when a cache operation of the harness's own housekeeping
+// never returned; C12 reports it, the other checks only avoid hanging on it.
+var deadlocked atomic.Pointer[string]
+
+// releaseCache switches auto-refresh off (the only way to release a watcher),
+// under a watchdog: a cache whose Configure() never returns must not hang the harness.
+func releaseCache(c *cdi.Cache) bool {
+	done := make(chan struct{})
+	go func() {
+		c.Configure(cdi.WithAutoRefresh(false))
+		close(done)
+	}()
+	select {
+	case <-done:
+		return true
+	case <-time.After(60 * time.Second):
+		buf := make([]byte, 1<<21)
+		buf = buf[:runtime.Stack(buf, true)]
+		dump := string(buf)
+		deadlocked.CompareAndSwap(nil, &dump)
+		fmt.Fprintln(os.Stderr, "harness: Cache.Configure(WithAutoRefresh(false)) has not returned for 60 s; abandoning that cache")
+		return false
+	}
 }
 
 func (a *autoCache) EventCounts() map[string]int64 {
